@@ -12,9 +12,11 @@ CONSTANTS
   WithFail = TRUE
   WithInflight = TRUE
   WithSwap = TRUE
+  WithOvertake = FALSE
   WithRestart = TRUE
   AlterDbChecked = TRUE
   AlterIdxRecheck = TRUE
   DropGuarded = TRUE
   CreateFromDrop = TRUE
+  ProbeAfterDrop = TRUE
   TabT = {0, 1, 2, 3}
